@@ -248,12 +248,85 @@ def noTimeoutAllGone (a : WPAsk) (o : WPObs) : Prop := a.timeout = none → o.al
 instance (a : WPAsk) (o : WPObs) : Decidable (noTimeoutAllGone a o) := by
   unfold noTimeoutAllGone; infer_instance
 
-def wpViolations (a : WPAsk) (o : WPObs) : List String :=
+/-- "which ones are still alive" (docstring of wait_procs): a process reported alive had not
+    ended when `wait_procs` returned — the last thing `wait_procs` does is to poll every survivor
+    once more (`clean pid` = no waitpid call on that PID was interrupted; an interrupted poll
+    learns nothing, see the finding C15-eintr-deadline) -/
+def aliveRunning (a : WPAsk) (o : WPObs) (clean : Nat → Bool) : Prop :=
+  ∀ pid ∈ o.alive, clean pid = true → ¬ endedBy (a.envOf pid) o.ret
+
+instance (a : WPAsk) (o : WPObs) (c : Nat → Bool) : Decidable (aliveRunning a o c) := by
+  unfold aliveRunning; infer_instance
+
+def wpViolations (a : WPAsk) (o : WPObs) (clean : Nat → Bool := fun _ => false) : List String :=
   (if partitionOk a o then [] else ["partition"]) ++
   (if callbackOnce a o then [] else ["callbackOnce"]) ++
   (if returncodeSet a o then [] else ["returncodeSet"]) ++
   (if goneEnded a o then [] else ["goneEnded"]) ++
   (if deadlineOk a o then [] else ["deadline"]) ++
-  (if noTimeoutAllGone a o then [] else ["noTimeoutAllGone"])
+  (if noTimeoutAllGone a o then [] else ["noTimeoutAllGone"]) ++
+  (if aliveRunning a o clean then [] else ["aliveRunning"])
+
+/-! ### arguments `wait_procs` / `wait` refuse (what a caller sees instead of a result) -/
+
+/-- what `wait_procs` answers when it does not return the two lists -/
+inductive WPRefusal
+  | valueError | typeError
+  deriving DecidableEq, Repr
+
+/-- a negative timeout is a ValueError (whatever the callback is); otherwise a callback that is
+    neither None nor callable is a TypeError; otherwise the arguments are accepted -/
+def wpRefusal (timeout : Option Rat) (cbGiven cbCallable : Bool) : Option WPRefusal :=
+  if negative timeout then some .valueError
+  else if cbGiven && !cbCallable then some .typeError
+  else none
+
+/-- the calling process cannot see its own end: it is not its own child and it exists for as long
+    as it can ask -/
+def isSelf (env : Env) : Prop := env.kind = .nonChild ∧ env.exitAt = none
+
+instance (env : Env) : Decidable (isSelf env) := by unfold isSelf; infer_instance
+
+/-- waiting for oneself can only time out (never a result, never a wrong exception) -/
+def selfWait (a : Ask) (o : Obs) : Prop :=
+  isSelf a.env → 0 < a.pid →
+    match a.timeout with
+    | some τ => 0 ≤ τ → o.out = .timeout τ a.pid ∨ o.out = .outOfFuel
+    | none => o.out = .outOfFuel
+
+instance (a : Ask) (o : Obs) : Decidable (selfWait a o) := by
+  unfold selfWait; split <;> infer_instance
+
+/-- PID 0 ("every process in the caller's process group" for waitpid) is refused -/
+def pidZeroRefused (a : Ask) (o : Obs) : Prop :=
+  a.pid = 0 → negative a.timeout = false → o.out = .valueError ∧ o.ret = a.start ∧ o.sleeps = []
+
+instance (a : Ask) (o : Obs) : Decidable (pidZeroRefused a o) := by
+  unfold pidZeroRefused; infer_instance
+
+def extraViolations (a : Ask) (o : Obs) : List String :=
+  (if selfWait a o then [] else ["selfWait"]) ++
+  (if pidZeroRefused a o then [] else ["pidZeroRefused"])
+
+/-! ### `psutil.Popen.wait`: the same promises as `Process.wait`, plus agreement with
+    `subprocess.Popen.returncode` (the attribute every `subprocess` method reads) -/
+
+/-- once `returncode` is set — by an earlier `wait()` or by subprocess's own poll()/communicate() —
+    `wait()` gives it back at once, without sleeping or asking the kernel -/
+def popenCachedOk (stored : Int) (later : Obs) (laterStart : Rat) (osCalls : Nat) : Prop :=
+  later.out = .code stored ∧ later.ret = laterStart ∧ later.sleeps = [] ∧ osCalls = 0
+
+instance (c : Int) (l : Obs) (s : Rat) (n : Nat) : Decidable (popenCachedOk c l s n) := by
+  unfold popenCachedOk; infer_instance
+
+/-- `returncode` after a call that found it unset: the exit status the call returned; still unset
+    when the call returned None or raised -/
+def popenStoredOk (o : Obs) (after : Option Int) : Prop :=
+  match o.out with
+  | .code c => after = some c
+  | _ => after = none
+
+instance (o : Obs) (a : Option Int) : Decidable (popenStoredOk o a) := by
+  unfold popenStoredOk; split <;> infer_instance
 
 end Psutil.C15.Spec
